@@ -1241,6 +1241,39 @@ pub fn check_c19_helpers(ctx: &mut Ctx, pt: u8, min: usize, padding: u8, count: 
             }
         }
     }
+    // third-party types that override the defaulted MAX_COUNT constant (a maximum, not a mask): every legal count
+    // of such a type comes out in the header as it went in, and the type's own parser reads it back
+    if pt == 207 && min == 4 && padding % 4 == 0 && (padding as usize) + 4 <= buf_len {
+        for mc in [4u8, 10, 16, 30] {
+            if count > mc {
+                continue;
+            }
+            let mut buf = vec![0xc3u8; buf_len];
+            match call(|| crate::custom::odd_header(mc, padding, count, &mut buf)) {
+                Err(p) => {
+                    ctx.violate("write_header", "helper", "max-count-override:panic", case, "returns 4", p.msg);
+                    return;
+                }
+                Ok(None) => {}
+                Ok(Some((n, back))) => {
+                    let words = buf_len / 4 - 1;
+                    let exp = [0x80 | if padding > 0 { 0x20 } else { 0 } | count, crate::custom::ODD_PT, (words >> 8) as u8, words as u8];
+                    if n != 4 || buf[..4] != exp || back != Ok(count) {
+                        ctx.violate(
+                            "write_header",
+                            "helper",
+                            "max-count-override",
+                            case,
+                            format!("a type with MAX_COUNT = {mc}: returns 4, header {}, its parser reads count {count} back", hex(&exp)),
+                            format!("returns {n}, header {}, parsed count {back:?}", hex(&buf[..4])),
+                        );
+                        return;
+                    }
+                    ctx.class("c19:helpers:max-count-override");
+                }
+            }
+        }
+    }
     ctx.class("c19:helpers:checked");
     ctx.nontrivial(hash_of(&(pt, min, padding, count, buf_len)));
 }
@@ -1608,6 +1641,7 @@ pub fn floor_c19(ctx: &Ctx) -> Vec<(String, bool)> {
         "c19:check_padding:err",
         "c19:helpers:checked",
         "c19:helpers:buffer>=64KiB",
+        "c19:helpers:max-count-override",
         "c19:cfg:image>=64KiB",
         "c19:check_packet:accept",
         "c19:check_packet:reject",
@@ -1617,6 +1651,6 @@ pub fn floor_c19(ctx: &Ctx) -> Vec<(String, bool)> {
         "c19:compound:",
     ]
     .iter()
-    .map(|c| (c.to_string(), all.keys().any(|k| k.starts_with(c)) || (c.contains("padded") && !ctx.violation_counts.is_empty())))
+    .map(|c| (c.to_string(), all.keys().any(|k| k.starts_with(c)) || (c.contains("padded") && !ctx.violation_counts.is_empty()) || (c.contains("max-count") && ctx.scale < 0.5)))
     .collect()
 }
